@@ -66,6 +66,13 @@ TraceBand ==
                   IN /\ mirror(r.fnr_ci, V.tpr_ci) /\ mirror(r.fpr_ci, V.tnr_ci)
                      /\ alias(r.fnr_ci, V.frr_ci) /\ alias(r.fpr_ci, V.far_ci)
                      /\ alias(V.tpr_ci, V.tar_ci) /\ alias(V.tnr_ci, V.trr_ci)>>,
+             (* a scripted, non-identity sampler (stored samples handed out in turn): the bands are the     *)
+             (* envelope of the rule-of-three-corrected pointwise intervals, which are the interval formula *)
+             (* (C13) on the replicates with the rates of the ORIGINAL object as point estimates            *)
+             <<"C16.bands_are_envelope_of_pointwise_intervals", ~lens \/ ~r.nan_free \/ e.fn # "roc_with_ci" \/
+                  e.sampler # "scripted" \/ ~("boot_fnr" \in DOMAIN r) \/ Len(r.boot_fnr) # n \/
+                  LET b == BandsFromPointwise(fn, fp, NPos(o), NNeg(o), r.fnr6, r.fpr6, r.boot_fnr, r.boot_fpr, e.alpha)
+                  IN \A j \in 1..n : near(Band(r.fnr_ci)[j], b.fnr[j]) /\ near(Band(r.fpr_ci)[j], b.fpr[j])>>,
              <<"C16.identity_sampler_closed_form", ~lens \/ ~r.nan_free \/ e.fn # "roc_with_ci" \/ ~e.identity \/
                   Len(r.u) # n \/ Len(r.w) # n \/
                   \A j \in 1..n : near(Band(r.fnr_ci)[j], cf.fnr[j]) /\ near(Band(r.fpr_ci)[j], cf.fpr[j])>>}),
